@@ -149,7 +149,21 @@ func c08OutOracle(want string, wantClass string) func(Resp) string {
 var c08Fields = []string{"class", "out", "depth"}
 
 func c08CallBinding(r *rand.Rand, emit func(Case)) {
-	pos := pick(r, c08Positions())
+	c08CallBindingNamed(r, "f", nil, "", "", emit)
+}
+
+// c08CallBindingNamed: the call-binding case for a function called `name` whose parameters are
+// drawn from paramPool (nil: p1 p2 ...); probe / probeOut: a first BEGIN rule printing an
+// expression that uses the builtin or method of the same name (or another builtin), and its line.
+func c08CallBindingNamed(r *rand.Rand, name string, paramPool []string, probe, probeOut string, emit func(Case)) {
+	var pos c08Pos
+	for {
+		pos = pick(r, c08Positions())
+		if name == "printf" && strings.Contains(pos.prog, "printf") {
+			continue // this position prints through the builtin
+		}
+		break
+	}
 	arity, argc := r.Intn(5), r.Intn(7)
 	var rt c08Ret
 	for {
@@ -159,8 +173,15 @@ func c08CallBinding(r *rand.Rand, emit func(Case)) {
 		}
 	}
 	params := make([]string, arity)
-	for i := range params {
-		params[i] = fmt.Sprintf("p%d", i+1)
+	if paramPool != nil {
+		perm := r.Perm(len(paramPool))
+		for i := range params {
+			params[i] = paramPool[perm[i]]
+		}
+	} else {
+		for i := range params {
+			params[i] = fmt.Sprintf("p%d", i+1)
+		}
 	}
 	args := make([]c08Arg, argc)
 	texts := make([]string, argc)
@@ -183,17 +204,149 @@ func c08CallBinding(r *rand.Rand, emit func(Case)) {
 	if rt.stmt != "" {
 		body += "\n  " + rt.stmt
 	}
-	call := "f(" + strings.Join(texts, ", ") + ")"
-	prog := "function side(v) { print \"S\", v\n return v }\nfunction id(x) { return x }\nfunction f(" + strings.Join(params, ", ") + ") {\n  " + body + "\n}\n" +
-		strings.ReplaceAll(pos.prog, "CALL", call) + "\n"
+	call := name + "(" + strings.Join(texts, ", ") + ")"
+	prog := "function side(v) { print \"S\", v\n return v }\nfunction id(x) { return x }\nfunction " + name + "(" + strings.Join(params, ", ") + ") {\n  " + body + "\n}\n"
+	want := pos.want(co, rt)
+	if probe != "" {
+		prog += "BEGIN { print " + probe + " }\n"
+		want = probeOut + "\n" + want
+	}
+	prog += strings.ReplaceAll(pos.prog, "CALL", call) + "\n"
 	var files []File
 	if pos.doc != "" {
 		files = []File{{Name: "in.json", Data: []byte(pos.doc)}}
 	}
+	meta := metaProg(prog, "position", pos.name, "arity/argc", fmt.Sprintf("%d/%d", arity, argc), "input", pos.doc)
+	if name != "f" {
+		meta["function-name"] = name
+		meta["row"] = name
+		meta["col"] = fmt.Sprintf("arity %d", arity)
+	}
 	emit(Case{Req: RunReq(prog, nil, files, false), Fields: c08Fields,
-		Meta:       metaProg(prog, "position", pos.name, "arity/argc", fmt.Sprintf("%d/%d", arity, argc), "input", pos.doc),
-		Oracle:     c08OutOracle(pos.want(co, rt), "ok"),
+		Meta:       meta,
+		Oracle:     c08OutOracle(want, "ok"),
 		NonTrivial: func(i Resp) bool { return i["class"] == "ok" }})
+}
+
+// ---------------------------------------------------------------- call-binding-names
+//
+// The name of a user function is a plain identifier: whatever else is called like it (a
+// builtin, a method of the prototypes, a type name of `is`, a word that only looks like a
+// keyword), the call binds ITS parameters and runs ITS body.  The function table is installed
+// in the root frame after the builtins.
+
+type c08FnName struct {
+	name     string
+	kind     string // builtin method type lookalike
+	probe    string // an expression that uses the other thing of the same name (or another builtin)
+	probeOut string
+}
+
+func c08FnNames() []c08FnName {
+	ns := []c08FnName{
+		{"num", "builtin", "json('a'), 'ab'.length()", `"a" 2`}, {"json", "builtin", "num('12') + 1, [1].length()", "13 1"}, {"printf", "builtin", "num('4'), json(true)", "4 true"},
+		{"length", "method", "'abc'.length(), [1, 2].length(), {a: 1}.length()", "3 2 1"}, {"push", "method", "[1].push(2)", "[1, 2]"}, {"pop", "method", "[1, 2].pop()", "2"},
+		{"popfirst", "method", "[1, 2].popfirst()", "1"}, {"contains", "method", "[1].contains(1)", "true"}, {"sort", "method", "[2, 1].sort()", "[1, 2]"},
+		{"pluck", "method", "{a: 1, b: 2}.pluck('a')", `{"a": 1}`}, {"split", "method", "'a,b'.split(',')", `["a", "b"]`}, {"lower", "method", "'AB'.lower()", "ab"},
+		{"upper", "method", "'ab'.upper()", "AB"}, {"floor", "method", "(2.5).floor()", "2"}, {"ceil", "method", "(2.5).ceil()", "3"}, {"round", "method", "(2.5).round()", "3"},
+	}
+	for _, t := range []string{"string", "number", "bool", "array", "object", "regex", "unknown"} {
+		ns = append(ns, c08FnName{t, "type", "1 is " + t + ", 'a' is " + t, map[string]string{"string": "false true", "number": "true false"}[t]})
+	}
+	for i := range ns {
+		if ns[i].probeOut == "" {
+			ns[i].probeOut = "false false"
+		}
+	}
+	for _, l := range []string{"begin", "Begin", "end", "End", "beginfile", "endfile", "Function", "functions", "returns", "Return", "iff", "If", "elsewhere", "whiles", "fors", "inn", "iss", "matches", "Match",
+		"print1", "prints", "printf2", "nexts", "Next", "exits", "breaks", "continues", "True", "nulls", "falsey", "NULL", "index", "file", "_f", "f_", "__", "number2", "Num", "JSON", "nativefunction", "nil"} {
+		ns = append(ns, c08FnName{l, "lookalike", "num('1'), json(null)", "1 null"})
+	}
+	return ns
+}
+
+func c08NameTemplates(r *rand.Rand, n c08FnName, emit func(Case)) {
+	N := n.name
+	other := "num"
+	otherCall, otherOut := "num('3')", "3"
+	if N == "num" {
+		other, otherCall, otherOut = "json", "json(3)", "3"
+	}
+	_ = other
+	type tmpl struct{ what, prog, want, class string }
+	ts := []tmpl{
+		{"parameter of another function named like it", "function N(a) { return a + 1 }\nfunction g(N) { return N }\nBEGIN { print g(5), N(1) }\n", "5 2\n", "ok"},
+		{"parameter named like it holds a number: calling it fails", "function N(a) { return a + 1 }\nfunction g(N) { return N(1) }\nBEGIN { print \"pre\"; print g(5); print \"post\" }\n", "pre\n", "runtime"},
+		{"defined after its use", "BEGIN { print N(2), N(2, 9), N() }\nfunction N(a) { if (a is null) return \"none\"; return a * 3 }\n", "6 6 none\n", "ok"},
+		{"recursive", "function N(d) { if (d == 0) return \"leaf\"; return \"(\" + N(d - 1) + \")\" }\nBEGIN { print N(2) }\n", "((leaf))\n", "ok"},
+		{"counts its calls in a global", "function N(a) { calls++; return a }\nBEGIN { calls = 0; N(\"x\"); N(\"y\", 2, 3); N(); print calls }\n", "3\n", "ok"},
+		{"no parameters, called with a format and arguments", "function N() { return \"mine\" }\nBEGIN { print N(\"%v|\\n\", 1), N() }\n", "mine mine\n", "ok"},
+		{"second optional parameter", "function N(s, dflt) { if (s ~ /^[0-9]+$/) return +s; return dflt }\n{ print N($.n), N($.n, -1) }\n", "4 4\nnull -1\n", "ok"},
+		{"calls the other builtin inside", "function N(x) { return \"<\" + " + otherCall + " + x + \">\" }\nBEGIN { print N(1), N('q') }\n", "<" + otherOut + "1> <" + otherOut + "q>\n", "ok"},
+		{"is function", "function N(a) { return a }\nBEGIN { print N is function, N(1) is function, N is unknown }\n", "true false false\n", "ok"},
+		{"called from a rule pattern, a match body and an argument list", "function N(a, b) { return a + b }\nN($.n, 1) > 0 { print \"hit\", match (1) { 1 => N(1, 2) }, [N(2, 2)], N(N(1, 1), N(1)) }\n", "hit 3 [4] 3\n", "ok"},
+		// what the model decides (no closed-form expectation)
+		{"global assigned over the function", "function N(a) { return a + 1 }\nBEGIN { print N(1); N = 5; print N, N is number; print N(1); print \"post\" }\n", "", ""},
+		{"variable named like it, no function defined", "BEGIN { N = 3; print N, N is number; N++; print N; print N(1); print \"post\" }\n", "", ""},
+		{"parameter named like it, then the name is used again outside", "function g(N) { print N; N = N + 1; return N }\nBEGIN { print g(1); print N is unknown, N is function; print " + n.probe + " }\n", "", ""},
+		{"match binding named like it", "function g() { return match (4) { N => N + 1 } }\nBEGIN { print g(); print N is unknown; print " + n.probe + " }\n", "", ""},
+		{"for-in variable named like it inside a function", "function g() { for (N in [1, 2]) print N\n return N }\nBEGIN { print g(); print N is unknown; print " + n.probe + " }\n", "", ""},
+		{"for-in variable named like it in a rule", "BEGIN { for (N, i in [7, 8]) print N, i\n print N; print N(1); print \"post\" }\n", "", ""},
+		{"two functions, one per name, calling each other", "function N(x) { if (x > 2) return x; return helper(x + 1) }\nfunction helper(x) { return N(x * 2) }\nBEGIN { print N(0), N(5) }\n", "", ""},
+		{"not defined by the program", "BEGIN { print \"pre\"; print N is unknown, N is function; print N(1); print \"post\" }\n", "", ""},
+		{"defined twice", "function N(a) { return \"first\" }\nfunction N(a, b) { return \"second\" }\nBEGIN { print N(1) }\n", "", ""},
+	}
+	for _, t := range ts {
+		prog := strings.ReplaceAll(t.prog, "N(", N+"(")
+		prog = strings.ReplaceAll(prog, "(N)", "("+N+")")
+		prog = strings.ReplaceAll(prog, " N ", " "+N+" ")
+		prog = strings.ReplaceAll(prog, " N,", " "+N+",")
+		prog = strings.ReplaceAll(prog, " N;", " "+N+";")
+		prog = strings.ReplaceAll(prog, " N\n", " "+N+"\n")
+		prog = strings.ReplaceAll(prog, " N++", " "+N+"++")
+		var files []File
+		if strings.Contains(prog, "$.n") {
+			files = []File{{Name: "in.json", Data: []byte(`[{"n":"4"},{"n":"x"}]`)}}
+		}
+		c := Case{Req: RunReq(prog, nil, files, false), Fields: c08Fields,
+			Meta:       metaProg(prog, "function-name", N, "name-kind", n.kind, "what", t.what, "row", n.kind, "col", t.what),
+			NonTrivial: func(i Resp) bool { return i["class"] == "ok" || i["class"] == "runtime" }}
+		if t.class != "" {
+			c.Oracle = c08OutOracle(t.want, t.class)
+		}
+		emit(c)
+	}
+}
+
+func c08GenNames(r *rand.Rand, tier string, emit func(Case)) {
+	names := c08FnNames()
+	var pool []string
+	for _, n := range names {
+		if n.kind != "lookalike" {
+			pool = append(pool, n.name)
+		}
+	}
+	for _, n := range names {
+		c08NameTemplates(r, n, emit)
+		per := tierN(tier, 25, 400)
+		if n.kind == "builtin" {
+			per *= 6
+		} else if n.kind == "lookalike" {
+			per /= 3
+		}
+		for i := 0; i < per; i++ {
+			// the parameters: ordinary names, or names of builtins / methods / types holding the arguments
+			var params []string
+			if chance(r, 0.5) {
+				params = pool
+			}
+			c08CallBindingNamed(r, n.name, params, n.probe, n.probeOut, emit)
+		}
+	}
+	// an ordinary function whose PARAMETERS are named like builtins / methods / types
+	for i, m := 0, tierN(tier, 300, 4000); i < m; i++ {
+		c08CallBindingNamed(r, "f", pool, "num('1'), json(null), 'ab'.length()", "1 null 2", emit)
+	}
 }
 
 // ---------------------------------------------------------------- value-vs-reference
@@ -1481,6 +1634,11 @@ func init() {
 				c08CallBinding(r, emit)
 			}
 		},
+	})
+	register(Family{
+		Name: "call-binding-names", Prop: "C08",
+		Rule: "the call-binding cases (arity 0-4 x 0-6 arguments x 27 expression positions x 4 return shapes, exact expected output) for user functions whose NAME is that of a builtin (num json printf; 6x the share), of a method of the array / object / string / number prototypes (length push pop popfirst contains sort pluck split lower upper floor ceil round), of a type name of `is` (string number bool array object regex unknown) or a keyword look-alike (begin End functions returns iff inn matches print1 nexts True nulls index file ...), half of them with PARAMETERS named like builtins / methods / types, plus ordinary functions with such parameters; a first BEGIN rule prints an expression using the builtin / method / type test of the same name or another builtin (they keep working); 19 templates per name: parameter of another function and match / for-in variable named like it, defined after its use, recursive (the property text's `json` example), counting calls in a global, zero parameters called like printf, optional second parameter over a document, calling another builtin inside, `is function`, called from pattern / match body / argument list (10 with exact oracle), and global assigned over the function, variable named like it without a function, the name not defined, defined twice, mutual recursion (model decides); oracle: exact expected output -- the call binds the user function's parameters and runs its body whatever else bears the name; every program is also compared with the model",
+		Gen:  c08GenNames,
 	})
 	register(Family{
 		Name: "value-vs-reference", Prop: "C08",
